@@ -160,6 +160,11 @@ def replay(ctx, payload):
         m, s = core.run_model(ctx, [payload["case"]])[0]
         print("cli:  ", r[:1500]); print("model:", m[:1500]); print("spec: ", s[:1500])
         return 0 if core.res_eq(r, m) and (s == "-" or core.res_eq(r, s)) else 1
+    if kind == "map-cli":
+        r = map_via_cli(ctx, payload["case"])
+        m, s = core.run_model(ctx, [payload["case"]])[0]
+        print("cli:  ", r[:1500]); print("model:", m[:1500]); print("spec: ", s[:1500])
+        return 0 if core.res_eq(r, m) and (s == "-" or core.res_eq(r, s)) else 1
     if kind == "table-cell":
         from skaverif import props
         n, bad = props.c15_cells(ctx)
@@ -173,7 +178,7 @@ def replay(ctx, payload):
         if line.split(" ")[0] in ("covcheck", "skfdec", "unframe"):
             print("model-only case line recorded:", line[:300])
         else:
-            r = core.run_impl(ctx, [line], "rp")[0]
+            r = run_lo_pipe(ctx, line) if line.startswith("lo_pipe ") else core.run_impl(ctx, [line], "rp")[0]
             m, s = core.run_model(ctx, [line])[0]
             ok = core.res_eq(r, m) and (s == "-" or core.res_eq(r, s))
             print("case: ", line[:500]); print("impl: ", r[:500]); print("model:", m[:500]); print("spec: ", s[:500])
@@ -640,22 +645,45 @@ def c19_cli(ctx, broken):
     write_fasta(os.path.join(d, "ref.fa"), [base])
     ska(["build", "-o", os.path.join(d, "good"), "-k", str(k)] + fas, d)
     good = open(os.path.join(d, "good.skf"), "rb").read()
+    ska(["build", "-o", os.path.join(d, "good2"), "-k", str(k), fas[0], fas[1]], d)
+    good2 = os.path.join(d, "good2.skf")
+    # (arguments, output file whose content is the result; None = stdout)
     cmds = {
-        "nk": lambda p: ["nk", "--full-info", p],
-        "align": lambda p: ["align", p, "--filter", "no-filter", "--min-freq", "0"],
-        "map": lambda p: ["map", os.path.join(d, "ref.fa"), p],
-        "distance": lambda p: ["distance", p],
-        "weed": lambda p: ["weed", p, os.path.join(d, "ref.fa"), "-o", os.path.join(d, "w.skf")],
-        "delete": lambda p: ["delete", "-s", p, "-o", os.path.join(d, "del"), "s0"],
-        "merge": lambda p: ["merge", p, os.path.join(d, "good.skf"), "-o", os.path.join(d, "mm")],
-        "lo": lambda p: ["lo", p, os.path.join(d, "lo")],
+        "nk": lambda p: (["nk", "--full-info", p], None),
+        "align": lambda p: (["align", p, "--filter", "no-filter", "--min-freq", "0"], None),
+        "map": lambda p: (["map", os.path.join(d, "ref.fa"), p], None),
+        "distance": lambda p: (["distance", p], None),
+        "weed": lambda p: (["weed", p, os.path.join(d, "ref.fa"), "-o", os.path.join(d, "w")], "w.skf"),
+        "delete": lambda p: (["delete", "-s", p, "-o", os.path.join(d, "del"), "s0"], "del.skf"),
+        "merge-first": lambda p: (["merge", p, good2, "-o", os.path.join(d, "mm")], "mm.skf"),
+        # the damaged file as a later input: it must not be skipped
+        "merge-second": lambda p: (["merge", good2, p, "-o", os.path.join(d, "mm")], "mm.skf"),
+        "merge-third": lambda p: (["merge", good2, os.path.join(d, "good.skf"), p, "-o", os.path.join(d, "mm")], "mm.skf"),
+        "lo": lambda p: (["lo", p, os.path.join(d, "lo")], "lo_snps.fas"),
     }
     def sorted_rows(text):
         return sorted(text.splitlines())
+    def run_cmd(name, path):
+        args, outfile = cmds[name](path)
+        for stale in ("w.skf", "del.skf", "mm.skf", "lo_snps.fas"):
+            if os.path.exists(os.path.join(d, stale)):
+                os.remove(os.path.join(d, stale))
+        code, out, err = ska(args, d)
+        if outfile is None:
+            return code, sorted_rows(out)
+        op = os.path.join(d, outfile)
+        if not os.path.exists(op):
+            return code, None
+        if outfile.endswith(".skf"):
+            c2, o2, e2 = ska(["nk", "--full-info", op], d)
+            return code, sorted_rows(o2)
+        # ska lo: columns of one variant group come out in hash order -> compare up to order and strand
+        canon = lo_free_canon(os.path.join(d, "lo"))
+        return code, [str(canon["snps"]), str(canon["indels"])]
     ref_out = {}
-    for name, mk in cmds.items():
-        code, out, err = ska(mk(os.path.join(d, "good.skf")), d)
-        ref_out[name] = (code, sorted_rows(out))
+    for name in cmds:
+        # renamed samples would clash in a merge of a file with itself: the reference run uses the same arguments
+        ref_out[name] = run_cmd(name, os.path.join(d, "good.skf"))
     nfaults = 400 if thorough else 60
     for fi in range(nfaults):
         data = bytearray(good)
@@ -669,19 +697,20 @@ def c19_cli(ctx, broken):
             what = f"flip {pos}.{bit}"
         bad = os.path.join(d, "bad.skf")
         open(bad, "wb").write(bytes(data))
-        for name, mk in cmds.items():
-            code, out, err = ska(mk(bad), d)
+        for name in cmds:
+            code, res = run_cmd(name, bad)
             evals += 1
-            if code == 0 and (name in ("nk", "align", "map", "distance")) and sorted_rows(out) != ref_out[name][1]:
+            if code == 0 and res != ref_out[name][1]:
                 return {"summary": {"evaluations": evals, "nontrivial": nontriv},
-                        "violation": {"kind": "c19-cli", "what": f"{name} accepted a damaged file with different output", "fault": what}}
+                        "violation": {"kind": "c19-cli", "what": f"{name} accepted a damaged file and gave a different result", "fault": what,
+                                      "expected_rows": len(ref_out[name][1] or []), "observed_rows": len(res or [])}}
         nontriv += 1
     if 1 not in chunk_types or 0 not in chunk_types:
         return {"summary": {"evaluations": evals, "nontrivial": nontriv},
                 "violation": {"kind": "c19-faults", "what": f"the generated files no longer cover both a compressed and an uncompressed first chunk (types seen: {chunk_types}); the check would not exercise both CRC paths"},
                 "no_input": True}
     return {"summary": {"evaluations": evals, "nontrivial": nontriv, "exhaustive": True, "first_chunk_types": chunk_types,
-                        "what": "every truncation point and every single-bit flip of each file through the real loader (rejected or same content), frame-decoder model cross-checked against snap on a subset, random faults through every CLI subcommand"},
+                        "what": "every truncation point and every single-bit flip of each file through the real loader (rejected or same content), frame-decoder model cross-checked against snap on a subset, random faults through every CLI subcommand (results of file-writing subcommands compared too; the damaged file also as second and third input of merge)"},
             "samples": samples}
 
 
@@ -1489,6 +1518,7 @@ def hist_via_cli(ctx, line):
     core.run_impl(ctx, [f"mkskf w={w} k={k} rc={kv['rc']} table={kv['start']} out={cur}"], "mk")
     step = 0
     names_style = sum(line.encode()) % 2
+    blank_style = sum(line.encode()) % 7      # where blank lines go in a names file
     if kv["ops"] != "~":
         for op in kv["ops"].split(";"):
             step += 1
@@ -1504,6 +1534,15 @@ def hist_via_cli(ctx, line):
                 code, out, err = ska(["merge", cur, other, "-o", os.path.join(d, f"m{step}")], d)
                 if code == 0:
                     os.replace(os.path.join(d, f"m{step}.skf"), cur)
+            elif f[0] == "mergen":
+                others = []
+                for i, t in enumerate(f[1].split("&")):
+                    other = os.path.join(d, f"other{step}_{i}.skf")
+                    core.run_impl(ctx, [f"mkskf w={w} k={k} rc={kv['rc']} table={t} out={other}"], "mk")
+                    others.append(other)
+                code, out, err = ska(["merge", cur] + others + ["-o", os.path.join(d, f"m{step}")], d)
+                if code == 0:
+                    os.replace(os.path.join(d, f"m{step}.skf"), cur)
             elif f[0] == "delete":
                 names = [] if f[1] == "~" else f[1].split("+")
                 names_style += 1
@@ -1511,7 +1550,15 @@ def hist_via_cli(ctx, line):
                     code = 1   # clap refuses an empty name list: nothing to run
                 elif names_style % 2 == 0:
                     nf = os.path.join(d, f"names{step}.txt")
-                    open(nf, "w").write("\n".join(names) + "\n")
+                    # one name per line; blank lines anywhere in the file carry no name and are skipped
+                    lines = []
+                    for i, nm in enumerate(names):
+                        if blank_style in (1, 2) and i > 0:
+                            lines.append("" if blank_style == 1 else "  \t")     # interior blank / whitespace-only line
+                        if blank_style == 3 and i == 0:
+                            lines.append("")                                      # leading blank line
+                        lines.append(nm + ("\tignored_second_field" if blank_style == 4 else ""))
+                    open(nf, "w").write("\n".join(lines) + ("\n\n" if blank_style == 5 else "\n"))
                     code, out, err = ska(["delete", "-s", cur, "-f", nf], d)
                 else:
                     code, out, err = ska(["delete", "-s", cur] + names, d)
@@ -1544,7 +1591,9 @@ def hist_via_cli(ctx, line):
             if code != 0:
                 same = open(cur, "rb").read() == before
                 dump, _ = nk_dump(d, cur)
-                return f"step{step}:refused;file={dump if same else 'CHANGED:' + str(dump)}"
+                # a refused merge writes no output file (not even an empty one)
+                left = any(os.path.exists(os.path.join(d, f"m{step}{e}")) for e in ("", ".skf"))
+                return f"step{step}:refused{'+output-written' if left else ''};file={dump if same else 'CHANGED:' + str(dump)}"
     out_parts = []
     for ob in kv["obs"].split(";"):
         f = ob.split("/")
@@ -1585,12 +1634,111 @@ def hist_via_cli(ctx, line):
     return " ".join(out_parts)
 
 
-def make_hist_cli(prop, nquick, nthorough):
+def classify_stderr(err):
+    """the harness's panic classes, from the stderr of the binary"""
+    if "has no valid sequence" in err:
+        return "novalid"
+    if "overflow" in err:
+        return "panic:overflow"
+    if "K-mer lengths do not match" in err or "Strand use inconsistent" in err:
+        return "refused"
+    if "Invalid k-mer length" in err:
+        return "badk"
+    if "No split k-mers mapped" in err:
+        return "nomapped"
+    if "index out of bounds" in err or "out of range" in err:
+        return "panic:index"
+    if "Palindrome middle base" in err:
+        return "panic:palindrome"
+    return "panic"
+
+
+def map_via_cli(ctx, line):
+    """execute one `map` case line through the ska binary (build from files or from a saved table,
+    then `ska map` as alignment and as VCF with the case's mask flags); canonical result string as
+    the in-process operation gives it"""
+    kv = kvs(line)
+    w, k, rc = kv["w"], int(kv["k"]), kv["rc"] == "1"
+    d = fresh_dir(ctx, "mapcli")
+    ref = os.path.join(d, "ref.fa")
+    write_fasta(ref, [("" if r == "." else r) for r in kv["ref"].split(",")])
+    skf = os.path.join(d, "x.skf")
+    if "table" in kv:
+        core.run_impl(ctx, [f"mkskf w={w} k={k} rc={kv['rc']} table={kv['table']} out={skf}"], "mk")
+    else:
+        files = []
+        for i, smp in enumerate(kv["samples"].split("|")):
+            f = os.path.join(d, f"s{i}.fa")
+            write_fasta(f, [("" if r == "." else r) for r in smp.split("+")], names=[f"q{j}" for j in range(len(smp.split("+")))])
+            files.append(f)
+        code, out, err = ska(["build", "-o", os.path.join(d, "x"), "-k", str(k)] + ([] if rc else ["--single-strand"]) + files, d)
+        if code != 0:
+            return classify_stderr(err)
+    flags = (["--ambig-mask"] if kv.get("amask") == "1" else []) + (["--repeat-mask"] if kv.get("rmask") == "1" else [])
+    code, out, err = ska(["map", ref, skf] + flags, d)
+    if code != 0:
+        return classify_stderr(err)
+    names = [l[1:] for l in out.splitlines() if l.startswith(">")]
+    seqs = [l for l in out.splitlines() if not l.startswith(">")]
+    while len(seqs) < len(names):
+        seqs.append("")
+    aln = ",".join(f"{n}:{q}" for n, q in zip(names, seqs)) or "~"
+    code, out, err = ska(["map", ref, skf, "-f", "vcf"] + flags, d)
+    if code != 0:
+        return classify_stderr(err)
+    raw, dec = [], []
+    for l in out.splitlines():
+        if l.startswith("#") or not l:
+            continue
+        f = l.split("\t")
+        alts = [] if f[4] == "." else f[4].split(",")
+        gts = f[9:]
+        raw.append(f"{f[0]}:{f[1]}:{f[3]}:{'/'.join(alts) if alts else '.'}:{'/'.join(gts)}")
+        dd = "".join("." if g == "." else (f[3] if g == "0" else (alts[int(g) - 1] if int(g) - 1 < len(alts) else "?")) for g in gts)
+        dec.append(f"{f[0]}:{f[1]}:{f[3]}:{dd}")
+    return f"aln[{aln}] vcf[{','.join(raw) or '~'}] dec[{','.join(dec) or '~'}]"
+
+
+def make_map_cli(prop, nquick, nthorough):
+    def fn(ctx, broken):
+        n = nthorough if ctx.tier == "thorough" else nquick
+        cases = [c for c in core.gen_cases("C04", "quick", ctx.seed + 977) if c.startswith("map ")]
+        rnd = random.Random(ctx.seed * 11 + 5)
+        rnd.shuffle(cases)
+        # both integer widths and every flag combination among the first cases
+        wide = [c for c in cases if " w=128 " in c]
+        narrow = [c for c in cases if " w=64 " in c]
+        cases = (wide[:n // 2] + narrow[:n - n // 2])
+        model = core.run_model(ctx, cases)
+        evals = nontriv = 0
+        flags = {}
+        samples = []
+        for c, (m, s) in zip(cases, model):
+            r = map_via_cli(ctx, c)
+            evals += 1
+            kv = kvs(c)
+            key = f"w{kv['w']}-amask{kv.get('amask')}-rmask{kv.get('rmask')}"
+            flags[key] = flags.get(key, 0) + 1
+            if r.startswith("aln["):
+                nontriv += 1
+            if len(samples) < 1:
+                samples.append({"case": c[:300], "cli_result": r[:200]})
+            if not (core.res_eq(r, m) and (s == "-" or core.res_eq(r, s))):
+                return {"summary": {"evaluations": evals, "nontrivial": nontriv},
+                        "violation": {"kind": "map-cli", "case": c, "cli": r[:3000], "model": m[:3000], "spec": s[:3000]}}
+        return {"summary": {"evaluations": evals, "nontrivial": nontriv, "flag_combinations": flags,
+                            "what": "the map cases through the ska binary (build or saved table, `ska map` as alignment and VCF with --ambig-mask / --repeat-mask, both integer widths through the lib.rs dispatch) vs model and specification"},
+                "samples": samples}
+    fn.__name__ = f"map_cli_{prop}"
+    return fn
+
+
+def make_hist_cli(prop, nquick, nthorough, gen_prop=None):
     def fn(ctx, broken):
         n = nthorough if ctx.tier == "thorough" else nquick
         if broken:
             n *= 3
-        cases = [c for c in core.gen_cases(prop, "quick", ctx.seed + 4242) if c.startswith("hist ")]
+        cases = [c for c in core.gen_cases(gen_prop or prop, "quick", ctx.seed + 4242) if c.startswith("hist ")]
         rnd = random.Random(ctx.seed * 7 + 1)
         rnd.shuffle(cases)
         cases = [c for c in cases if "rawdist" not in c or True][:n]
